@@ -171,6 +171,12 @@ void Executor::op_file(const Op& op, TaskCtx& t) {
     else if (fk == "gztrunc") { std::string z = gzip(data); out = z.substr(0, z.size() ? a % z.size() : 0); }
     else if (fk == "insline") { size_t ls = data.rfind('\n', a ? a - 1 : 0); ls = ls == std::string::npos ? 0 : ls + 1; out = data.substr(0, ls) + hex_decode(op.get("hex", "")) + data.substr(ls); }
     else if (fk == "insert") { out = data.substr(0, a) + hex_decode(op.get("hex", "")) + data.substr(a); }
+    else if (fk == "basrec") {
+      // one stored record of a basis file keeps its shape but its status indicator becomes another valid one (XU XL UL LL): the file stays parseable and the number of basic variables no longer fits
+      std::vector<size_t> recs; static const char* ind[] = {"XU", "XL", "UL", "LL"};
+      for (size_t ls = 0; ls < n;) { size_t le = data.find('\n', ls); if (le == std::string::npos) le = n; if (le - ls >= 4 && data[ls] == ' ') for (int q = 0; q < 4; q++) if (data.compare(ls + 1, 2, ind[q]) == 0 && data[ls + 3] == ' ') { recs.push_back(ls); break; } ls = le + 1; }
+      if (!recs.empty()) { size_t ls = recs[a % recs.size()]; int b = (int)(op.geti("b", 0) & 3); if (data.compare(ls + 1, 2, ind[b]) == 0) b = (b + 1) & 3; out.replace(ls + 1, 2, ind[b]); }
+    }
     spit(f, out);
     count("file_fault:" + fk); res_.nontrivial = true;
     return;
